@@ -1,5 +1,6 @@
 (* C07 — a withdrawal pays exactly what is owed, once. *)
-From VP Require Import Base Nonce Store StoreProofs Pool PoolProofs BalanceProofs Conc ConcProofs.
+From VP Require Import Base Nonce Store StoreProofs Pool PoolProofs BalanceProofs Conc ConcProofs Locks LocksProofs.
+From VPgen Require Import Facts.
 
 (* executed iff settlement is enabled, the balance (deposit + credit) meets the minimum and the
    settlement goes through *)
@@ -60,3 +61,21 @@ Example c07_example :
   let '(_, _, r2) := pay_withdraw cfg dep1 st1 7%N true in
   r1 = PPaid 4500 /\ r2 = PBelowMin 0 /\ total st1 = 0.
 Proof. vm_compute. auto. Qed.
+
+(* racing withdrawals: Withdraw takes one service-wide mutex (a plain field, locked with a
+   deferred unlock before the balance is read — structural facts regenerated from
+   pool/payment/service.go on every run).  For that lock — the keyed lock with a single key whose
+   entry is never removed — two withdrawals are never between "balance read" and "credit
+   deducted" together, for any number of racing requests and any schedule; so racing withdrawals
+   behave as the repeated ones of [c07_repeat].  A lock whose entry is removed on release admits a
+   third request beside the second. *)
+Theorem c07_withdraw_lock_as_modelled :
+  withdraw_lock_is_one_mutex = true /\ withdraw_takes_lock_first = true.
+Proof. vm_compute. auto. Qed.
+Theorem c07_racing_withdrawals_exclusive : forall ops t1 t2,
+  holding (lrun false lst0 ops) t1 = true -> holding (lrun false lst0 ops) t2 = true -> t1 = t2.
+Proof. exact keyed_lock_mutual_exclusion. Qed.
+Print Assumptions c07_racing_withdrawals_exclusive.
+Theorem c07_lock_entry_removal_refuted :
+  holders (lrun true lst0 chain3) = [2; 3]%N /\ holders (lrun false lst0 chain3) = [2]%N.
+Proof. exact deleting_variant_refuted. Qed.
